@@ -15,6 +15,7 @@ import SccacheModel.Driver.Framing
 import SccacheModel.Driver.Tc
 import SccacheModel.Driver.EntryRead
 import SccacheModel.Driver.Atomic
+import SccacheModel.Driver.Tokens
 
 /-- `modeld <model>`: line-protocol driver, one sub-command per executable model (DESIGN.md C.1) -/
 def main (args : List String) : IO UInt32 := do
@@ -36,4 +37,5 @@ def main (args : List String) : IO UInt32 := do
   | ["tc"] => DrvTc.main *> pure 0
   | ["entryread"] => DrvEntryRead.main *> pure 0
   | ["atomic"] => DrvAtomic.main *> pure 0
+  | ["tokens"] => DrvTokens.main *> pure 0
   | _ => do IO.eprintln "usage: modeld <model>"; pure 2
